@@ -162,7 +162,7 @@ def R(s, policy=None, consulted=None):
             if k < n and ch_eq(s[k], ">"):
                 e = _find(s, k + 1, "</%text>")
                 if e < 0:
-                    return ("exc",)
+                    return ("exc", i, "unclosed-text")
                 out.extend(s[k + 1:e])
                 i = e + 8
                 continue
@@ -189,7 +189,7 @@ def R(s, policy=None, consulted=None):
                 if k2 < n and ch_eq(s[k2], ">"):
                     closed = True
             if closed:
-                return ("exc",)
+                return ("exc", i, "closer")
             out.append(s[i])      # a stray '<' is literal text
             i += 1
             continue
